@@ -102,6 +102,98 @@ def extract_send_clauses():
         if b is None or not re.search(r'inner\s*:\s*I\b', b): structure_ok = False; problems.append(f'{it} does not hold its iterator by value')
     return clauses, problems, structure_ok
 
+ORDS = {'Relaxed': 0, 'Acquire': 1, 'Release': 1, 'AcqRel': 2, 'SeqCst': 3}
+
+def extract_profile():
+    """orderings of every atomic access class in concurrent_rb.rs, fence placement in buf_ref.rs"""
+    problems = []
+    txt = strip_comments(open(os.path.join(REPO, 'src/ring_buffer/variants/concurrent_rb.rs')).read())
+    def weakest(cands, need):
+        # need: 'acq' or 'rel' or 'both': pick the candidate that is weakest with respect to the need
+        if not cands: problems.append(f'no access found for a class ({need})'); return 'Relaxed'
+        def ok(o): return {'acq': o in ('Acquire', 'AcqRel', 'SeqCst'), 'rel': o in ('Release', 'AcqRel', 'SeqCst'), 'both': o in ('AcqRel', 'SeqCst')}[need]
+        bad = [o for o in cands if not ok(o)]
+        return bad[0] if bad else cands[0]
+    idx_loads = re.findall(r'self\.(?:prod|work|cons)_idx\.load\(\s*(?:Ordering::)?(\w+)\s*\)', txt)
+    idx_stores = re.findall(r'self\.(?:prod|work|cons)_idx\.store\(\s*\w+\s*,\s*(?:Ordering::)?(\w+)\s*\)', txt)
+    alive_loads = re.findall(r'self\.alive\.load\(\s*(?:Ordering::)?(\w+)\s*\)', txt)
+    alive_rmws = re.findall(r'self\.alive\.fetch_(?:and|or)\([^,]+,\s*(?:Ordering::)?(\w+)\s*\)', txt)
+    # every atomic access of the file must be one of the recognised shapes
+    total = len(re.findall(r'\.(?:load|store|fetch_\w+|swap|compare_exchange\w*)\(', txt))
+    if total != len(idx_loads) + len(idx_stores) + len(alive_loads) + len(alive_rmws):
+        problems.append(f'concurrent_rb.rs: {total} atomic accesses, only {len(idx_loads) + len(idx_stores) + len(alive_loads) + len(alive_rmws)} recognised')
+    for o in idx_loads + idx_stores + alive_loads + alive_rmws:
+        if o not in ORDS: problems.append(f'unknown ordering {o}')
+    if len(idx_loads) != 3 or len(idx_stores) != 3: problems.append(f'expected 3 index loads and 3 index stores, found {len(idx_loads)}/{len(idx_stores)}')
+    # the liveness decision must be taken from the value returned by the RMW itself
+    m = re.search(r'fn\s+set_alive[^{]*\{(.*?)\n    \}', txt, re.S)
+    rmw_decides = bool(m and re.search(r'self\.alive\.fetch_and\([^)]*\)\s*&\s*!\s*flag\s*==\s*0', m.group(1)) and '.load(' not in m.group(1))
+    if not rmw_decides: problems.append('set_alive: "was I the last" is not decided from the value returned by fetch_and alone')
+    br = strip_comments(open(os.path.join(REPO, 'src/ring_buffer/wrappers/buf_ref.rs')).read())
+    fb = fa = True
+    for nm in ('prod', 'work', 'cons'):
+        m = re.search(r'fn\s+set_' + nm + r'_alive[^{]*\{(.*?)\n    \}', br, re.S)
+        if not m: problems.append(f'buf_ref.rs: set_{nm}_alive not found'); fb = fa = False; continue
+        body = m.group(1)
+        i_set = body.find(f'.set_{nm}_alive(')
+        fences = [x.start() for x in re.finditer(r'fence\(\s*SeqCst\s*\)', body)]
+        if i_set < 0: problems.append(f'buf_ref.rs: set_{nm}_alive does not call the buffer'); continue
+        if not any(f < i_set for f in fences): fb = False
+        if not any(f > i_set for f in fences): fa = False
+        if re.search(r'\.(?:prod|work|cons)_alive\(\)', body): problems.append(f'buf_ref.rs: set_{nm}_alive reads liveness flags separately')
+        if not re.search(r'if\s+last\s*\{\s*self\.drop\(\)', body): problems.append(f'buf_ref.rs: set_{nm}_alive: unexpected release condition')
+    prof = (weakest(idx_loads, 'acq'), weakest(idx_stores, 'rel'), weakest(alive_rmws, 'both'), weakest(alive_loads, 'acq'), fb, fa)
+    return prof, rmw_decides, problems
+
+def write_profile(prof, rmw_decides, problems):
+    os.makedirs(OUT, exist_ok=True)
+    lines = ['(* GENERATED by tools/extract_facts.py from /repo/src on every run - do not edit *)',
+             'Require Import MRB.Model.Trace.', '',
+             f'Definition observed : profile := mkProfile {prof[0]} {prof[1]} {prof[2]} {prof[3]} {b(prof[4])} {b(prof[5])}.',
+             f'(* the last iterator is decided from the value returned by the fetch_and itself *)',
+             f'Definition rmw_decides : bool := {b(rmw_decides)}.',
+             f'Definition extractor_clean : bool := {b(not problems)}.']
+    for p in problems: lines.append(f'(* PROBLEM: {p} *)')
+    open(os.path.join(OUT, 'Profile.v'), 'w').write('\n'.join(lines) + '\n')
+
+def extract_structure():
+    """loop constructs per function, functions that call Waker::wake"""
+    loops = []; wakers = []
+    for path in sorted(glob.glob(os.path.join(REPO, 'src', '**', '*.rs'), recursive=True)):
+        if path.endswith('verif_hooks.rs'): continue
+        rel = os.path.relpath(path, os.path.join(REPO, 'src'))
+        txt = strip_comments(open(path).read())
+        txt = re.sub(r'"(?:[^"\\]|\\.)*"', '""', txt)
+        # function spans
+        fns = [(m.start(), m.group(1)) for m in re.finditer(r'\bfn\s+([A-Za-z_][A-Za-z0-9_]*)', txt)]
+        def fn_at(pos):
+            name = '?'
+            for st, n in fns:
+                if st <= pos: name = n
+            return name
+        for m in re.finditer(r'\b(loop|while|for)\b', txt):
+            kw = m.group(1)
+            if kw == 'for':
+                # `for` in `impl .. for ..` / `for<'a>` is not a loop: a loop is `for <pat> in`
+                if not re.match(r'for\s+[^;{}]*?\bin\b', txt[m.start():m.start() + 200]): continue
+                before = txt[max(0, m.start() - 80):m.start()]
+                if re.search(r'\bimpl\b[^;{}]*$', before): continue
+            loops.append((rel, fn_at(m.start()), kw))
+        for m in re.finditer(r'\.wake(?:_by_ref)?\s*\(', txt):
+            wakers.append((rel, fn_at(m.start())))
+    return loops, wakers
+
+def write_structure(loops, wakers):
+    lines = ['(* GENERATED by tools/extract_facts.py from /repo/src on every run - do not edit *)',
+             'From Coq Require Import List String.', 'Import ListNotations.', 'Open Scope string_scope.', '',
+             '(* every loop construct in the crate: (file, function, keyword) *)',
+             'Definition loops : list (string * string * string) := [']
+    lines.append(';\n'.join(f'  ("{f}", "{fn}", "{kw}")' for f, fn, kw in loops))
+    lines.append('].')
+    lines.append('(* functions that call Waker::wake / wake_by_ref *)')
+    lines.append('Definition wake_callers : list (string * string) := [' + '; '.join(f'("{f}", "{fn}")' for f, fn in wakers) + '].')
+    open(os.path.join(OUT, 'Structure.v'), 'w').write('\n'.join(lines) + '\n')
+
 def b(x): return 'true' if x else 'false'
 
 def write_send(clauses, problems, structure_ok):
@@ -126,6 +218,13 @@ def main():
     write_send(c, p, s)
     for x in p: print('extract_facts: PROBLEM:', x)
     print(f'extract_facts: {len(c)} Send/Sync clauses')
+    prof, rd, pp = extract_profile()
+    write_profile(prof, rd, pp)
+    for x in pp: print('extract_facts: PROBLEM:', x)
+    print('extract_facts: profile', prof)
+    loops, wakers = extract_structure()
+    write_structure(loops, wakers)
+    print(f'extract_facts: {len(loops)} loops, {len(wakers)} wake calls')
 
 if __name__ == '__main__':
     main()
